@@ -1014,7 +1014,7 @@ func c13ObserveDecision(app *assembly.HandlerApp, c c13Case) c13EObs {
 
 	for k, vs := range rec.Header() {
 		if hn[k] {
-			o.HO.Headers = append(o.HO.Headers, [2]string{k, strings.Join(vs, "\x00")})
+			o.HO.Headers = append(o.HO.Headers, [2]string{k, strings.Join(vs, ",")})
 		}
 	}
 
@@ -1076,7 +1076,7 @@ func c13ObserveProxy(app *assembly.HandlerApp, up *assembly.Upstream, c c13Case)
 
 	for k, vs := range seen[0].Header {
 		if hn[k] {
-			o.HO.Headers = append(o.HO.Headers, [2]string{k, strings.Join(vs, "\x00")})
+			o.HO.Headers = append(o.HO.Headers, [2]string{k, strings.Join(vs, ",")})
 		}
 	}
 
@@ -1150,7 +1150,7 @@ func c13ObserveEnvoy(app *assembly.App, c c13Case) c13EObs {
 				vs[i] = h.GetHeader().GetValue()
 			}
 
-			o.HO.Headers = append(o.HO.Headers, [2]string{k, strings.Join(vs, "\x00")})
+			o.HO.Headers = append(o.HO.Headers, [2]string{k, strings.Join(vs, ",")})
 		}
 	}
 
@@ -1231,15 +1231,18 @@ func c13CoqSlashes(s string) string {
 	return "SOff"
 }
 
-// c13EnvoyCaches is what the sentinel request of this run found out about the tree under test: does the
-// Envoy request context hand out ONE view object per request (the repair of C13-F1, fixes/C13-F1.diff)
-// or a new one on every Request() call (the pinned code)?  The evaluator runs the matching variant of
-// the model; whether the pinned variant is still acceptable is decided by findings/C13.json alone.
-var c13EnvoyCaches bool
+// c13Fx is what the sentinel requests of this run found out about the tree under test: which of the
+// (candidate) repairs fixes/C13-Fx.diff it contains.  The evaluator runs the matching variant of the
+// model; whether a pinned variant is still acceptable is decided by findings/C13.json alone.
+//   F1: the Envoy request context hands out ONE view object per request (fix: b2286d8)
+//   F2: grpcv3 Header(name) canonicalises the name          F3: decision/proxy hand all values of a header over
+//   F4: the Envoy context carries a decoded Path and RawPath F6: grpcv3 Header("Host")     F7: grpcv3 Body() of no body
+var c13Fx struct{ F1, F2, F3, F4, F6, F7 bool }
 
-// c13EnvoyDecodesPath: second sentinel (corpus case 7, an encoded slash under the default
-// allow_encoded_slashes: off): does the Envoy context carry RawPath (the repair of C13-F4, fixes/C13-F4.diff)?
-var c13EnvoyDecodesPath bool
+func c13FxCoq() string {
+	return vf.CoqApp("fxs", vf.CoqBool(c13Fx.F1), vf.CoqBool(c13Fx.F2), vf.CoqBool(c13Fx.F3), vf.CoqBool(c13Fx.F4),
+		vf.CoqBool(c13Fx.F6), vf.CoqBool(c13Fx.F7))
+}
 
 func c13Coq(c c13Case, or c13Oracle, o c13Obs) string {
 	q := c.Req
@@ -1254,7 +1257,7 @@ func c13Coq(c c13Case, or c13Oracle, o c13Obs) string {
 			vf.CoqListOf(rl.Steps, c13Step.coq), vf.CoqListOf(rl.Probes, c13Q.coq), coqPairs(c.Caps)) + ")"
 	}
 
-	return vf.CoqApp("cs", vf.CoqBool(c13EnvoyCaches), vf.CoqBool(c13EnvoyDecodesPath), lreq, rule, vf.CoqStr(or.escPath), vf.CoqStr(or.ct), vf.CoqStr(or.decBody),
+	return vf.CoqApp("cs", c13FxCoq(), lreq, rule, vf.CoqStr(or.escPath), vf.CoqStr(or.ct), vf.CoqStr(or.decBody),
 		vf.CoqStr(or.decEmpty), o.Dec.coq(), o.Prx.coq(), o.Env.coq())
 }
 
@@ -1543,15 +1546,24 @@ func TestVerifC13(t *testing.T) {
 	crules, ccases := c13Corpus()
 	capps := c13Start(t, crules, up.Host)
 
-	// sentinel (corpus case 0 through Envoy): does the pipeline see the capture that matching stored?
+	// sentinels: the corpus witnesses of the findings that have a (candidate) repair
 	if s := c13ObserveEnvoy(capps.env, ccases[0]); s.HO != nil && len(s.HO.Headers) == 1 {
-		c13EnvoyCaches = s.HO.Headers[0][1] == "abc"
+		c13Fx.F1 = s.HO.Headers[0][1] == "abc" // the pipeline sees the capture that matching stored
 	} else {
 		t.Fatalf("sentinel request failed: %+v", s)
 	}
 
-	// sentinel (corpus case 7 through Envoy): is the encoded slash refused as the HTTP services refuse it?
-	c13EnvoyDecodesPath = c13ObserveEnvoy(capps.env, ccases[7]).Status == 400
+	c13Fx.F2 = c13ObserveEnvoy(capps.env, ccases[4]).Status == 0   // Header("x-role") finds X-Role
+	c13Fx.F4 = c13ObserveEnvoy(capps.env, ccases[7]).Status == 400 // the encoded slash is refused
+	c13Fx.F6 = c13ObserveEnvoy(capps.env, ccases[15]).Status == 0  // Header("Host") is the request host
+
+	if s := c13ObserveDecision(capps.dec, ccases[6]); s.HO != nil && len(s.HO.Headers) == 1 {
+		c13Fx.F3 = s.HO.Headers[0][1] == "one,two" // both values of X-Out are handed over
+	}
+
+	if s := c13ObserveEnvoy(capps.env, ccases[16]); len(s.View) > 0 {
+		c13Fx.F7 = s.View[0].S == `""` // Body() of a request without body
+	}
 
 	for _, c := range ccases {
 		if vf.Want(idx) {
